@@ -378,7 +378,11 @@ func TestVerifC01(t *testing.T) {
 		// boundary corpus first
 		vh01SendCase(o, ty, &vh01Gen{r: r, profile: "zero"}, 0, maximumLength)
 		vh01SendCase(o, ty, &vh01Gen{r: r, profile: "max"}, noTag, maximumLength)
-		for i := 0; i < 3; i++ {
+		nedge := 2
+		if thorough {
+			nedge = 6
+		}
+		for i := 0; i < nedge; i++ {
 			vh01SendCase(o, ty, &vh01Gen{r: r, profile: "edge"}, tags[r.Intn(len(tags))], maximumLength)
 		}
 		for i := 0; i < nrandom; i++ {
@@ -386,7 +390,10 @@ func TestVerifC01(t *testing.T) {
 		}
 		// long strings, lists and payloads (only where the type has such a field: the generator
 		// places one long feature; types without it just give another random case)
-		strLens := []int{256, 65535}
+		strLens := []int{256}
+		if ty == msgTsymlink || ty == msgRreadlink || ty == msgTlock || ty == msgTauth || ty == msgTrenameat || ty == msgRwalkgetattr {
+			strLens = []int{256, 65535}
+		}
 		if thorough || ty == msgTwalk || ty == msgTversion || ty == msgRreaddir {
 			strLens = []int{255, 256, 32767, 32768, 65535}
 		}
@@ -473,7 +480,7 @@ func TestVerifC01(t *testing.T) {
 			}
 			stride := 1
 			if !thorough {
-				stride = 1 + len(w)/24
+				stride = 1 + len(w)/16
 			}
 			for i := 7 + r.Intn(stride); i < len(w); i += stride {
 				x := append([]byte(nil), w...)
